@@ -172,10 +172,18 @@ func checkC03(p *Prog, r *Report) {
 			switch x.Kind {
 			case "alloc":
 			case "other":
-				if _, ok := x.V.(*ssa.MakeSlice); !ok {
-					local = false
-					why = append(why, x.String())
+				if _, ok := x.V.(*ssa.MakeSlice); ok {
+					continue
 				}
+				/* Borrowed from a sync.Pool by the reader itself and
+				handed back only by its own deferred call, i.e. after its
+				last Read has returned: nobody else has it meanwhile
+				(sync.Pool's contract is trusted). */
+				if pooledByReader(rfn, x.V) {
+					continue
+				}
+				local = false
+				why = append(why, x.String())
 			default:
 				local = false
 				why = append(why, x.String())
@@ -1023,4 +1031,47 @@ func checkBodyUntouched(p *Prog, r *Report, ru *Rule) {
 	if n < 2 {
 		ru.Unproven("routes:body-untouched", token.NoPos, "%d routes hand a request body to the broker, at least 2 expected", n)
 	}
+}
+
+// pooledByReader: v is *p with p taken from a sync.Pool inside fn, and every
+// Put of p is made by a call fn defers (directly or in a deferred literal).
+func pooledByReader(fn *ssa.Function, v ssa.Value) bool {
+	ld, ok := v.(*ssa.UnOp)
+	if !ok || token.MUL != ld.Op {
+		return false
+	}
+	ta, ok := resolveCell(ld.X).(*ssa.TypeAssert)
+	if !ok || ta.Parent() != fn {
+		return false
+	}
+	get, ok := ta.X.(*ssa.Call)
+	if !ok || "(*sync.Pool).Get" != calleeName(get.Common()) {
+		return false
+	}
+	deferredLits := map[*ssa.Function]bool{}
+	eachInstr(fn, func(i ssa.Instruction) {
+		if d, ok := i.(*ssa.Defer); ok {
+			if f, _ := closureOf(d.Common().Value); nil != f {
+				deferredLits[f] = true
+			}
+		}
+	})
+	okAll, puts := true, 0
+	for _, f := range withAnons(fn) {
+		eachInstr(f, func(i ssa.Instruction) {
+			c := callCommon(i)
+			if nil == c || "(*sync.Pool).Put" != calleeName(c) || len(c.Args) < 2 {
+				return
+			}
+			if resolveCell(stripConv(c.Args[1], false)) != ssa.Value(ta) {
+				return
+			}
+			puts++
+			_, isDefer := i.(*ssa.Defer)
+			if !(isDefer && f == fn) && !deferredLits[f] {
+				okAll = false
+			}
+		})
+	}
+	return okAll && puts > 0
 }
